@@ -441,6 +441,9 @@ func (g *gen) constOf(fi int, rt *rtype, depth int) *DConst {
 			if frt == nil || !g.constable(frt, depth+1) {
 				continue
 			}
+			if g.cfg.compileSafe && f.Req == 2 && frt.kind == "enum" {
+				continue // thriftgo emits `&E_V` for an optional enum member of a struct literal
+			}
 			if rt.strct.Kind == 'u' {
 				if len(c.Pairs) == 1 {
 					break
@@ -568,7 +571,7 @@ func (g *gen) fieldList(fi int, n int, kind byte, self *DStruct) []*DField {
 		} else {
 			f.Type, rt = g.genType(fi, 0, "")
 		}
-		if rt != nil && kind != 'u' && g.r.Chance(30) && g.constable(rt, 0) && rt.kind != "struct" && g.safeConstType(fi, f.Type, rt, true) {
+		if rt != nil && kind != 'u' && !(kind == 'a' && g.cfg.compileSafe) && g.r.Chance(30) && g.constable(rt, 0) && rt.kind != "struct" && g.safeConstType(fi, f.Type, rt, true) {
 			f.Default = g.constOf(fi, rt, 1)
 		}
 		fs = append(fs, f)
